@@ -27,14 +27,14 @@ open Httpcache
 /-- the identifier under which a response is stored -/
 def storeId (cfg : Cfg) (key : Str) (reqH respH : Header) : Str :=
   makeVaryKey key (normalizeVary cfg.normQ
-    (if varyHasWildcard (joinWith [',', ' '] (Header.values (removeHopByHop respH) sVary)) then ['*']
+    (if (Header.values (removeHopByHop respH) sVary).any varyHasWildcard then ['*']
      else joinWith [',', ' '] (Header.values (removeHopByHop respH) sVary)) reqH)
 
-/-- every Vary value with a "*" member, however spelled and whatever else it names, is stored under one
+/-- every Vary value with a "*" member on any of its field lines, however spelled and whatever else it names, is stored under one
     identifier per URL: such responses never match a request, so they are one variant -/
 theorem wildcard_variants_share_an_id (cfg : Cfg) (key : Str) (reqH respH respH' : Header)
-    (h : varyHasWildcard (joinWith [',', ' '] (Header.values (removeHopByHop respH) sVary)) = true)
-    (h' : varyHasWildcard (joinWith [',', ' '] (Header.values (removeHopByHop respH') sVary)) = true) :
+    (h : (Header.values (removeHopByHop respH) sVary).any varyHasWildcard = true)
+    (h' : (Header.values (removeHopByHop respH') sVary).any varyHasWildcard = true) :
     storeId cfg key reqH respH = storeId cfg key reqH respH' := by
   unfold storeId; simp only [h, h', ↓reduceIte]
 
